@@ -1306,7 +1306,29 @@ func main() {
 	if err := os.MkdirAll(*out, 0o755); err != nil {
 		die("%v", err)
 	}
-	if err := os.WriteFile(filepath.Join(*out, "GenC22a_Table.v"), []byte(b.String()), 0o644); err != nil {
+	// intern the string literals: every distinct literal becomes one named constant (coqc parses string literals slowly)
+	text := b.String()
+	hdrEnd := strings.Index(text, "Definition gen_structs")
+	body := text[hdrEnd:]
+	litRe := regexp.MustCompile(`"[^"]*"`)
+	identRe := regexp.MustCompile(`^[A-Za-z][A-Za-z0-9_]*$`)
+	names := map[string]string{}
+	var defs []string
+	body = litRe.ReplaceAllStringFunc(body, func(l string) string {
+		if n, ok := names[l]; ok {
+			return n
+		}
+		inner := l[1 : len(l)-1]
+		n := fmt.Sprintf("str_%d", len(names))
+		if identRe.MatchString(inner) {
+			n = "s_" + inner
+		}
+		names[l] = n
+		defs = append(defs, "Definition "+n+" : string := "+l+".")
+		return n
+	})
+	text = text[:hdrEnd] + strings.Join(defs, "\n") + "\n\n" + body
+	if err := os.WriteFile(filepath.Join(*out, "GenC22a_Table.v"), []byte(text), 0o644); err != nil {
 		die("%v", err)
 	}
 	// ---- theorems over the table: static template
